@@ -49,7 +49,7 @@ FAKE_ROOT = "/T/R"      # two levels, like the real roots /tmp/<dir>
 ORDER_FIELD = os.environ.get("VERIF_C05_ORDER_FIELD", "order")
 # What `exists` means for the model of `_resolve_imported_file`: "tree" = os.path.exists (files and directories, the pinned code);
 # "tree_files" = os.path.isfile (after a repair of known finding import_candidate_is_directory)
-EXISTS_FIELD = os.environ.get("VERIF_C05_EXISTS", "tree")
+EXISTS_FIELD = os.environ.get("VERIF_C05_EXISTS", "tree_files")
 NOT_FOUND = re.compile(r"^Macro (.*) not found\.$")
 
 
@@ -598,6 +598,11 @@ def shrink_case(case: dict, still_fails: Callable[[dict], bool], budget: int = 1
                 ok = cands[i](trial)
             except Exception:
                 ok = False
+            # a function body needs at least one statement: such trials are not programs
+            if ok and any(not m["body"] for a in trial["files"].values() for m in a.get("macros", [])):
+                ok = False
+            if ok and any(r.get("body") == [] for a in trial["files"].values() for r in a.get("routines", [])):
+                ok = False
             if ok:
                 evals += 1
                 try:
@@ -675,7 +680,7 @@ def run(run: core.Run) -> int:
     n_rich, n_layout, n_invalid, n_posnest = (220, 200, 84, 4) if quick else (4000, 3000, 900, 12)
     rich_groups = []
     for i in range(n_rich):
-        c = G.rich_case(rng, run.tier, gstats, idx=i)
+        c = G.rich_case(rng, run.tier, gstats, allow_pos_nested=True, idx=i)   # Position literals + nested macros: hang repaired by 1dfd06a
         vs = G.order_variants(c, rng, 3 if quick else 5) if i % 3 == 0 else []
         rich_groups.append({"cases": [c] + vs, "n": len(c["files"][c["main"]]["macros"]), "rich": True})
     layouts = [G.layout_case(rng, i, gstats) for i in range(n_layout)]
@@ -728,14 +733,19 @@ def run(run: core.Run) -> int:
                     run.violation(kind, what, replay)
                     continue
                 # unknown kind: shrink, then report what the shrunk case shows
-                base = kind.split(":")[0].split("_differs")[0]
+                # the shrunk case must fail in the same way: same kind (behavioural kinds: same family, the feature suffix may shrink)
+                base = "expansion_differs" if kind.startswith("expansion_differs") else kind
 
-                def still(c: dict, base: str = base) -> bool:
+                sig = (ev.res.get("site"), (ev.res.get("msg") or "")[:25]) if isinstance(ev.res, dict) and kind.startswith("valid_program_rejected") else None
+
+                def still(c: dict, base: str = base, sig: Any = sig) -> bool:
                     e = evaluate_single(c, pool, drv, run_id)
-                    return any(k.startswith(base) for k, _ in e.violations)
+                    if sig is not None and (not isinstance(e.res, dict) or (e.res.get("site"), (e.res.get("msg") or "")[:25]) != sig):
+                        return False      # rejected for another reason (e.g. the shrinker removed a definition that is still used)
+                    return any((k.startswith(base) if base == "expansion_differs" else k == base) for k, _ in e.violations)
                 small = shrink_case(ev.case, still, budget=100 if quick else 300)
                 se = evaluate_single(small, pool, drv, run_id)
-                sv = [x for x in se.violations if x[0].startswith(base)] or [(kind, what)]
+                sv = [x for x in se.violations if (x[0].startswith(base) if base == "expansion_differs" else x[0] == base)] or [(kind, what)]
                 run.violation(sv[0][0], sv[0][1], {"case": small, "texts": print_case(small, "replay")["files"],
                                                    "impl": {k: v for k, v in se.res.items() if k in ("error", "msg", "site", "ops", "macro_order")},
                                                    "original_case": ev.case["name"]})
